@@ -1,13 +1,20 @@
 import Sismic.Proofs.Edit
+import Sismic.Proofs.Rename
+import Sismic.Props.C07
+import Sismic.Props.C02
 /-!
 # Property C17 — renaming and copying states preserves behaviour
 
 Proved here (structure): `rename_state` substitutes the name in both ends of every transition and
 nothing else of a transition changes — in particular internal transitions stay internal — and
-renaming a state to its own name is a no-op.  The behavioural part (the renamed statechart produces
-the original run up to the renaming; a copied sub-statechart behaves like its source) is decided by
-the tie (lock-step execution of original and renamed / host and guest against each other and
-against the interpreter model), see DESIGN.md §6 C17 (`_partial`).
+renaming a state to its own name is a no-op; and the whole statechart after `rename_state(a, b)` is
+the statechart with `b` substituted for `a` everywhere (`Chart.mapNames`), declared in another
+order (`rename_is_substitution`) — so, by C07, it *behaves* exactly as the substituted statechart
+(`renamed_behaves_as_substituted`: same macro steps, same exception at the same step, for every
+evaluator that does not read the history memory).  What remains for the tie (lock-step execution
+of original and renamed / host and guest against each other and against the interpreter model) is
+the equivariance of the interpreter under the substitution itself, and `copy_from_statechart`;
+see DESIGN.md §7 C17 (`_partial`).
 -/
 namespace Sismic.C17
 open Sismic.Chart
@@ -28,5 +35,32 @@ theorem rename_to_itself (c : Chart) (a : Name) : c.renameState a a = (.ok (), c
 /-- a failed renaming (existing new name, unknown old name) changes nothing -/
 theorem rename_atomic (c : Chart) (a b : Name) (e : EditErr)
     (h : (c.renameState a b).1 = .error e) : (c.renameState a b).2 = c := renameState_atomic c a b e h
+
+/-- **`rename_state` changes nothing but the name**: on a statechart whose three dictionaries are
+    consistent (`Tidy`: what well-formed statecharts with duplicate-free dictionaries satisfy,
+    `tidy_of_wf`), the result is the statechart with `b` substituted for `a` in every state name,
+    `initial`, `memory`, parent/children entry and transition end — up to the order in which
+    states, entries and children are registered. -/
+theorem rename_is_substitution (c : Chart) (a b : Name) (ht : Tidy c) (h : (c.renameState a b).1 = .ok ()) (hne : a ≠ b) :
+    ChartPerm (c.mapNames (renameIn a b)) (c.renameState a b).2 :=
+  Sismic.rename_is_substitution c a b ht h hne
+
+variable {σ ω : Type}
+
+/-- **The renamed statechart behaves as the substituted one** (declaration order is invisible,
+    C07): same macro steps for the same clock values, ending — if at all — with the same exception
+    at the same step, from any pair of states that differ in the order of the history memory only. -/
+theorem renamed_behaves_as_substituted (env env' : Env σ ω) (c : Chart) (a b : Name) (ht : Tidy c)
+    (h : (c.renameState a b).1 = .ok ()) (hne : a ≠ b)
+    (h1 : env.chart = c.mapNames (renameIn a b)) (h2 : env'.chart = (c.renameState a b).2)
+    (hE : env'.E = env.E) (hi : env'.ignoreContract = env.ignoreContract) (hd : env'.deliver = env.deliver)
+    (hf : env'.stabFuel = env.stabFuel) (hb : MemBlind env.E) (hw : WFChart env.chart)
+    (clocks : List Int) (rs₁ : RS σ ω) (out : List (Except Err (Option MacroStep)))
+    (hrun : C07.Run env clocks rs₁ out) : ∀ rs₂, Rel rs₁ rs₂ → C07.Run env' clocks rs₂ out :=
+  C07.declaration_order_free_run
+    ⟨by rw [h1, h2]; exact Sismic.rename_is_substitution c a b ht h hne, hE, hi, hd, hf⟩ hb hw clocks rs₁ out hrun
+
+/-! non-vacuity: the example statechart of C02 (orthogonal state, nested target, history state) is tidy -/
+example : Tidy C02.exChart := tidy_of_wf _ (wfB_sound _ (by decide)) (by decide)
 
 end Sismic.C17
